@@ -140,11 +140,36 @@ Theorem C02_history_unvalidated : forall cfg h t0 script k gq obs o,
 Proof.
   intros cfg h t0 script k gq obs o all L Hk Ho Hr Hnc.
   destruct (history_safeX L cfg h (init_world t0 script)) as [_ H]; [intros k' e' E; discriminate|apply incl_refl|].
-  destruct (H k gq obs o Hk Ho Hr Hnc) as [E|(e & Hs & Hd & E)]; [left; exact E|right].
+  destruct (proj1 (H k gq obs o Hk Ho Hr) Hnc) as [E|(e & Hs & Hd & E)]; [left; exact E|right].
   exists e. split; [exact Hs|split; [exact E|]]. intros Hv.
   apply decision_needs_no_validation; [exact Hv|eapply Src_status; exact Hs|exact Hd].
 Qed.
 Print Assumptions C02_history_unvalidated.
+
+(* ... and a response returned marked REVALIDATED carries the status and body of a stored entry e with a known source,
+   for which the decision at the start of the exchange was to validate, and the origin was contacted IN THAT EXCHANGE
+   with exactly the client's request plus If-None-Match / If-Modified-Since from e's validators
+   ([with_conditional_headers]) and answered 304 (the call is in the log of the history). *)
+Theorem C02_history_validated : forall cfg h t0 script k gq obs r,
+  let all := run_history cfg h (init_world t0 script) in
+  let L := flat_map (fun x => x_events x ++ x_bg_events x) all in
+  nth_error h k = Some gq -> nth_error all k = Some obs -> x_result obs = Done (OResp r) -> has_call (x_events obs) ->
+  hvalues status_header (p_hdr r) = [bs "REVALIDATED"] ->
+  exists e must a b r0 idx,
+    Src (GXl L) e /\ decide_hit (snd gq) e (x_t0 obs) = DRevalidate must /\
+    In (EvCall idx (with_conditional_headers (snd gq) (e_hdr e)) a b (RResp r0)) L /\ p_status r0 = 304 /\
+    p_status r = e_status e /\ (p_body r = e_body e \/ p_body r = -1).
+Proof.
+  intros cfg h t0 script k gq obs r all L Hk Ho Hr Hc Hv.
+  destruct (history_safeX L cfg h (init_world t0 script)) as [_ H]; [intros k' e' E; discriminate|apply incl_refl|].
+  destruct (after_call_revalidated _ _ _ _ (proj2 (H k gq obs (OResp r) Hk Ho Hr) Hc) Hv) as (e & must & a & b & r0 & Hs & Hd & (idx & Hin) & H3 & Hst & Hb).
+  exists e, must, a, b, r0, idx. repeat split; assumption.
+Qed.
+Print Assumptions C02_history_validated.
+
+(* when validation is demanded, nothing stored is returned without it: the stale-if-error answer (the only other way a
+   stored response leaves an exchange that contacted the origin) requires the decision DRevalidate false (C13_history),
+   and a mandatory validation gives DRevalidate true or the 504 (C02_no_stale_fallback) *)
 
 (* ---------- tie to the source: the part of the model this property rests on is what /verif/translate derives from
    /repo's Go source on this run (Generated/*.v are rewritten before every build; see DESIGN.md section 9) ---------- *)
